@@ -159,10 +159,12 @@ struct FunctionalPosition {
 impl FunctionalPosition {
   /// index is 0-based, but output is 1-based
   fn is_matched(&self, index: usize) -> bool {
-    let index = (index + 1) as i32; // Convert 0-based index to 1-based
-    let FunctionalPosition { step_size, offset } = self;
-    if *step_size == 0 {
-      index == *offset
+    // widen before arithmetic: index + 1 and index - offset must not wrap or truncate
+    // (sibling indices are far below i64::MAX: tree-sitter counts children in u32)
+    let index = index as i64 + 1; // Convert 0-based index to 1-based
+    let (step_size, offset) = (self.step_size as i64, self.offset as i64);
+    if step_size == 0 {
+      index == offset
     } else {
       let n = index - offset;
       n / step_size >= 0 && n % step_size == 0
